@@ -202,6 +202,12 @@ func floatLiterals(c *Ctx) (pool []string, cl []string) {
 			add(fmt.Sprintf("%se%d", bumpLast(d5, false), j-len(d5)), "cheat-cutoff")
 		}
 	}
+	// long whitespace runs in front of the literal (ReadFloat64 skips them itself)
+	for _, pre := range wsRuns() {
+		for _, body := range []string{"0", "1.5", "-2.5e-3", "9007199254740993", "1e400"} {
+			add(string(pre)+body, "long-ws")
+		}
+	}
 	// 19/20/21-digit mantissas around 2^64 and truncation boundaries
 	for _, base := range []string{"18446744073709551615", "18446744073709551616", "9999999999999999999", "1000000000000000000", "9007199254740992", "9007199254740993", "9007199254740994"} {
 		for _, suffix := range []string{"", "0", "1", "5", "9", "00", "01", "50", "99", "000000000000000000001", ".0", ".5", ".50000000000000000000001", "e1", "e-1", "e22", "e23", "e-22", "e-23", "e37", "e38"} {
@@ -371,7 +377,7 @@ func init() {
 			// strconv as a second oracle for well-formed literals followed by a delimiter
 			if f := follow[i%len(follow)]; f == "" || f == " " || f == "," || f == "]" || f == "}" {
 				s.Evaluations++
-				want, err := strconv.ParseFloat(lit, 64)
+				want, err := strconv.ParseFloat(strings.TrimLeft(lit, " \t\r\n"), 64) // ReadFloat64 skips leading JSON whitespace, strconv does not
 				fi := strings.Fields(impl)
 				if err == nil && !(len(fi) == 3 && fi[0] == "ok" && fi[1] == strconv.FormatUint(math.Float64bits(want), 10)) {
 					// strconv itself mis-places the decimal point of >800-digit integers (same port); the Lean specification decides those
